@@ -14,7 +14,7 @@ RULE = (
     "(every nesting on either side), seeded random trees to depth 6 (thorough: <=3 nodes exhaustive, depth 8); scopes with small values so "
     "that powers stay computable; operands ConstantAxis / AnonymousAxis for the TypeError clause; literals beyond 2^53 under every folding operation. non-trivial = distinct tree with >=2 operator nodes"
 )
-RULE += " Also SYMCHECK: the axis built from the symbolic classes as the axis of an annotation, checked against arrays of the size Python's arithmetic gives, one more, one less."
+RULE += " Also SYMCHECK: the axis built from the symbolic classes as the axis of an annotation, checked against arrays of the size Python's arithmetic gives, one more, one less. Axis names that begin / end with or contain a function name."
 ATOMS = ["a", "b", "1", "2", "3", "0"]
 OPS2 = ["add", "sub", "mul", "div", "exp", "min", "max"]
 OPS1 = ["isqrt", "grp"]
